@@ -13,32 +13,15 @@ Definition C16_statement_round : Prop :=
 Local Ltac wit s t x :=
   exists s, t, x; repeat split; try (simpl; lia); try (vm_compute; congruence); try discriminate.
 
-(* Int8(-1.5 as Fix128) = -2, required -1 *)
-Lemma fix128_to_int_refuted :
-  conv_model NFix128 (NI (KSigned 8)) (-1500000000000000000000000) = Ok (-2) /\
-  spec_conv NFix128 (NI (KSigned 8)) (-1500000000000000000000000) = Ok (-1).
-Proof. vm_compute. split; reflexivity. Qed.
-
-(* UInt8(-0.000000000000000000000001 as Fix128) underflows, required 0 *)
-Lemma fix128_to_uint_refuted :
-  conv_model NFix128 (NI (KUnsigned 8)) (-1) = Err Underflow /\
-  spec_conv NFix128 (NI (KUnsigned 8)) (-1) = Ok 0.
-Proof. vm_compute. split; reflexivity. Qed.
-
-(* Word8(-1.5 as Fix128) = 254, required 255 *)
-Lemma fix128_to_word_refuted :
-  conv_model NFix128 (NI (KWord 8)) (-1500000000000000000000000) = Ok 254 /\
-  spec_conv NFix128 (NI (KWord 8)) (-1500000000000000000000000) = Ok 255.
-Proof. vm_compute. split; reflexivity. Qed.
-
-(* Fix64(-0.000000000000000000000001 as Fix128) = -0.00000001, required 0.0 *)
-Lemma fix128_to_fix64_refuted :
-  conv_model NFix128 NFix64 (-1) = Ok (-1) /\ spec_conv NFix128 NFix64 (-1) = Ok 0.
-Proof. vm_compute. split; reflexivity. Qed.
-
 (* UFix64(-0.000000000000000000000001 as Fix128) underflows, required 0.0 *)
 Lemma fix128_to_ufix64_refuted :
   conv_model NFix128 NUFix64 (-1) = Err Underflow /\ spec_conv NFix128 NUFix64 (-1) = Ok 0.
+Proof. vm_compute. split; reflexivity. Qed.
+
+(* Fix64(-92233720368.547758080000000000000001 as Fix128) underflows, required Fix64.min *)
+Lemma range_before_trunc_low_refuted :
+  conv_model NFix128 NFix64 (-9223372036854775808 * e16 - 1) = Err Underflow /\
+  spec_conv NFix128 NFix64 (-9223372036854775808 * e16 - 1) = Ok (-9223372036854775808).
 Proof. vm_compute. split; reflexivity. Qed.
 
 (* Fix64(92233720368.547758070000000000000001 as UFix128) overflows, required Fix64.max *)
@@ -64,9 +47,9 @@ Proof. vm_compute. repeat split; reflexivity. Qed.
 
 Theorem statement_refuted : ~ C16_statement.
 Proof.
-  intro H. specialize (H NFix128 (NI (KSigned 8)) (-1500000000000000000000000)).
-  destruct fix128_to_int_refuted as [A B]. rewrite A, B in H.
-  assert (Ok (-2) = Ok (-1) :> res Z) by (apply H; simpl; try lia; split; simpl; lia). discriminate.
+  intro H. specialize (H NFix128 NUFix64 (-1)).
+  destruct fix128_to_ufix64_refuted as [A B]. rewrite A, B in H.
+  assert (Err Underflow = Ok 0 :> res Z) by (apply H; simpl; try lia; split; simpl; lia). discriminate.
 Qed.
 
 Theorem statement_round_refuted : ~ C16_statement_round.
@@ -78,13 +61,12 @@ Qed.
 
 (* every witness lies in its defect class (the guards of the partial theorems are not vacuous) *)
 Lemma witnesses_in_defect_classes :
-  conv_defect NFix128 (NI (KSigned 8)) (-1500000000000000000000000) /\
-  conv_defect NFix128 NFix64 (-1) /\
+  conv_defect NFix128 NFix64 (-9223372036854775808 * e16 - 1) /\
   conv_defect NFix128 NUFix64 (-1) /\
   conv_defect NUFix128 NFix64 (9223372036854775807 * e16 + 1) /\
   conv_defect (NI (KSigned 128)) NFix64 (- 2 ^ 100) /\
   conv_round_defect NFix128 NFix64 RTowardZero 1.
 Proof.
   unfold conv_defect, conv_round_defect, round_zero_defect, e16, e24, max_int64, min_int64.
-  repeat split; try lia; try (vm_compute; congruence); try (left; split; [lia | vm_compute; congruence]).
+  repeat split; try lia; try (vm_compute; congruence); try (right; lia); try (left; lia).
 Qed.
